@@ -36,17 +36,25 @@ import (
 
 const modPath = "github.com/0xReLogic/Helios/"
 
+// an error value: the format string (or the name of the sentinel variable) and the string
+// arguments it was built with
+const errType = "(Option (String × List String))"
+
 type spec struct {
 	Pkg, Recv, Name string
 	Exact           bool
 	Extern          map[string]bool // methods whose result is an object handed in by the caller
 	LeanName        string
 	View            map[string]bool // pointer parameters of foreign types: the fields read become value parameters
+	Join            bool            // an `if` whose body only assigns is a conditional re-binding (no duplicated continuation)
 }
 
 // pointer fields that are followed (the pointed-to record becomes a nested structure); every other
 // pointer to a struct is represented by whether it is non-nil
 var nestedFields = map[string]bool{"healthChecks": true}
+
+// records whose pointer slices are read as lists of records
+var slicesOfRecords = map[string]bool{"Backend": true}
 
 // calls that only report: `x.metricsCollector.UpdateBackendHealth(name, healthy)` is kept as an entry
 // appended to the field `fx` of the structure of `x` (the order of reports is part of the behaviour)
@@ -60,11 +68,39 @@ var specs = []spec{
 	{Pkg: "internal/ratelimiter", Recv: "TokenBucketRateLimiter", Name: "Allow", Extern: map[string]bool{"getOrCreateBucket": true}},
 	{Pkg: "internal/loadbalancer", Recv: "", Name: "jumpHash", Exact: true},
 	{Pkg: "internal/loadbalancer", Recv: "Backend", Name: "eligible"},
+	{Pkg: "internal/loadbalancer", Recv: "Backend", Name: "GetActiveConnections"},
+	{Pkg: "internal/loadbalancer", Recv: "LeastConnectionsStrategy", Name: "NextBackend", LeanName: "lcNextBackend"},
+	{Pkg: "internal/loadbalancer", Recv: "RoundRobinStrategy", Name: "NextBackend", LeanName: "rrNextBackend"},
 	{Pkg: "internal/loadbalancer", Recv: "LoadBalancer", Name: "MarkBackendUnhealthy"},
 	{Pkg: "internal/loadbalancer", Recv: "LoadBalancer", Name: "IsBackendHealthy"},
 	{Pkg: "internal/loadbalancer", Recv: "LoadBalancer", Name: "handleHealthCheckFailure"},
 	{Pkg: "internal/loadbalancer", Recv: "LoadBalancer", Name: "processHealthCheckResponse", View: map[string]bool{"resp": true}},
 	{Pkg: "internal/loadbalancer", Recv: "LoadBalancer", Name: "handlePassiveHealthCheck", View: map[string]bool{"r": true}},
+	{Pkg: "internal/plugins", Recv: "limitedResponseWriter", Name: "ensureHeaderWritten", LeanName: "limEnsureHeaderWritten"},
+	{Pkg: "internal/plugins", Recv: "limitedResponseWriter", Name: "checkLimit", LeanName: "limCheckLimit"},
+	{Pkg: "internal/plugins", Recv: "limitedResponseWriter", Name: "Write", LeanName: "limWrite"},
+	{Pkg: "internal/plugins", Recv: "limitedResponseWriter", Name: "WriteHeader", LeanName: "limWriteHeader"},
+	{Pkg: "internal/plugins", Recv: "limitedResponseWriter", Name: "Flush", LeanName: "limFlush"},
+	{Pkg: "internal/plugins", Recv: "gzipResponseWriter", Name: "commitHeader", LeanName: "gzCommitHeader"},
+	{Pkg: "internal/plugins", Recv: "gzipResponseWriter", Name: "WriteHeader", LeanName: "gzWriteHeader"},
+	{Pkg: "internal/plugins", Recv: "gzipResponseWriter", Name: "Write", LeanName: "gzWrite"},
+	{Pkg: "internal/plugins", Recv: "gzipResponseWriter", Name: "Flush", LeanName: "gzFlush"},
+	{Pkg: "internal/loadbalancer", Recv: "WebSocketPool", Name: "Get", LeanName: "poolGet"},
+	{Pkg: "internal/loadbalancer", Recv: "WebSocketPool", Name: "Put", LeanName: "poolPut"},
+	{Pkg: "internal/loadbalancer", Recv: "WebSocketPool", Name: "Close", LeanName: "poolClose"},
+	{Pkg: "internal/loadbalancer", Recv: "WebSocketPool", Name: "cleanupBackend", LeanName: "poolCleanupBackend"},
+	{Pkg: "internal/config", Recv: "Config", Name: "validateBackends"},
+	{Pkg: "internal/config", Recv: "Config", Name: "validateServer"},
+	{Pkg: "internal/config", Recv: "Config", Name: "validateTimeouts"},
+	{Pkg: "internal/config", Recv: "Config", Name: "validateLoadBalancer"},
+	{Pkg: "internal/config", Recv: "Config", Name: "validateHealthChecks"},
+	{Pkg: "internal/config", Recv: "Config", Name: "validateRateLimit"},
+	{Pkg: "internal/config", Recv: "Config", Name: "validateCircuitBreaker"},
+	{Pkg: "internal/config", Recv: "Config", Name: "validateMetrics"},
+	{Pkg: "internal/config", Recv: "Config", Name: "validateAdminAPI"},
+	{Pkg: "internal/config", Recv: "Config", Name: "validateLogging"},
+	{Pkg: "internal/config", Recv: "Config", Name: "validateRanges", Join: true},
+	{Pkg: "internal/config", Recv: "Config", Name: "Validate"},
 }
 
 var (
@@ -161,10 +197,32 @@ func needStruct(n *types.Named) string {
 	return name
 }
 
+// ptrStruct: a pointer to a record of this module
+func ptrStruct(t types.Type) *types.Named {
+	p, ok := t.(*types.Pointer)
+	if !ok {
+		return nil
+	}
+	n := namedOf(p)
+	if n == nil || n.Obj().Pkg() == nil || !strings.HasPrefix(n.Obj().Pkg().Path(), modPath) {
+		return nil
+	}
+	if _, ok := n.Underlying().(*types.Struct); !ok {
+		return nil
+	}
+	return n
+}
+
 // leanType maps a Go type; ok=false: not representable (the field is left out)
 func leanType(t types.Type, exact bool) (string, bool) {
 	if isPkgType(t, "time", "Time", "Duration") {
 		return "Int", true
+	}
+	if isPkgType(t, "bytes", "Buffer") {
+		return "(List Nat)", true // the bytes held
+	}
+	if isPkgType(t, "net", "Conn") {
+		return "Nat", true // the identity of the connection; 0 is nil
 	}
 	switch v := t.(type) {
 	case *types.Basic:
@@ -195,7 +253,11 @@ func leanType(t types.Type, exact bool) (string, bool) {
 		return "", false
 	case *types.Named:
 		if v.Obj().Pkg() == nil && v.Obj().Name() == "error" {
-			return "(Option String)", true
+			return errType, true
+		}
+		if _, ok := v.Underlying().(*types.Struct); ok && v.Obj().Pkg() != nil &&
+			strings.HasSuffix(v.Obj().Pkg().Path(), "/internal/config") && v.Obj().Parent() == v.Obj().Pkg().Scope() {
+			return needStruct(v), true // a configuration record: a structure of its own, by name
 		}
 		if st, ok := v.Underlying().(*types.Struct); ok {
 			if v.Obj().Pkg() != nil && strings.HasPrefix(v.Obj().Pkg().Path(), modPath) {
@@ -232,6 +294,11 @@ func leanType(t types.Type, exact bool) (string, bool) {
 		}
 		return "", false
 	case *types.Slice:
+		if n := ptrStruct(v.Elem()); n != nil && slicesOfRecords[n.Obj().Name()] {
+			// a slice of pointers to records read as the list of the records (no nil entries, no aliasing
+			// between entries: `AddBackend` appends a fresh pointer)
+			return "(List " + needStruct(n) + ")", true
+		}
 		et, ok := leanType(v.Elem(), exact)
 		if !ok {
 			return "", false
@@ -278,11 +345,21 @@ type fn struct {
 	failed   bool
 	aux      []string // auxiliary definitions (loops)
 	loopN    int
+	retWrap  string                  // inside a range loop: a `return` yields `some (..)`, falling through goes on
 	views    map[types.Object]string // foreign pointer parameters read field by field
+	mutates   bool                  // some tracked object is updated (a call of it cannot be used as a pure expression)
+	optLocals map[types.Object]bool // locals of pointer type: `Option` of the record (nil = none)
+	contK     cont                  // inside a range loop: what `continue` does
+	resultOpt []bool                // results of pointer type (`Option` of the record)
+	hoisted   map[*ast.CallExpr]string // atomic.AddX(&s.f, d) inside an expression: done before it, read as s.f
+	asserted  map[types.Object]stateVar // f in `f, ok := x.ResponseWriter.(http.Flusher)`
 	viewPars []param                 // the value parameters those reads became
 }
 
 var structsWithFx = map[string]bool{}
+var structsWithClosed = map[string]bool{} // objects through which connections are closed
+var structsWithOut = map[string]bool{}     // wrappers of a ResponseWriter: calls handed on, in order
+var structsWithFlusher = map[string]bool{} // ... whose code asks whether the wrapped writer can flush
 var noRepr = map[string]bool{}
 
 type stateVar struct {
@@ -308,7 +385,7 @@ var leanKeywords = map[string]bool{"end": true, "from": true, "at": true, "open"
 	"extends": true, "for": true, "return": true, "break": true, "continue": true, "mut": true, "try": true, "catch": true,
 	"finally": true, "unless": true, "calc": true, "local": true, "attribute": true, "abbrev": true, "example": true,
 	"inductive": true, "axiom": true, "opaque": true, "Type": true, "Prop": true, "Sort": true, "fuel": true, "using": true,
-	"nomatch": true, "nofun": true, "suffices": true, "obtain": true, "set": true}
+	"nomatch": true, "nofun": true, "exists": true, "forall": true, "suffices": true, "obtain": true, "set": true}
 
 func ident(s string) string {
 	if leanKeywords[s] {
@@ -322,6 +399,24 @@ func (f *fn) fail(n ast.Node, format string, a ...interface{}) string {
 	pos := fset.Position(n.Pos())
 	problems = append(problems, f.spec.Name+"\x00"+fmt.Sprintf("%s:%d: %s", filepath.Base(pos.Filename), pos.Line, fmt.Sprintf(format, a...)))
 	return "sorryAx _"
+}
+
+func (f *fn) isPkgLevelVar(id *ast.Ident) bool {
+	o := f.l.info.Uses[id]
+	v, ok := o.(*types.Var)
+	return ok && v.Pkg() != nil && v.Parent() == v.Pkg().Scope()
+}
+
+// tupleProj: field i of n of a record represented as a right-nested tuple
+func tupleProj(x string, i, n int) string {
+	if n == 1 {
+		return x
+	}
+	s := x + strings.Repeat(".2", i)
+	if i < n-1 {
+		s += ".1"
+	}
+	return s
 }
 
 func (f *fn) isState(e ast.Expr) (stateVar, bool) {
@@ -471,7 +566,29 @@ func (f *fn) expr(e ast.Expr) string {
 				return ident(name)
 			}
 		}
+		if xt := f.typeOf(v.X); xt != nil {
+			if _, isPtr := xt.(*types.Pointer); !isPtr {
+				if n := namedOf(xt); n != nil {
+					if st, ok := n.Underlying().(*types.Struct); ok {
+						if _, ok := leanType(f.typeOf(v), f.spec.Exact); !ok {
+							return f.fail(v, "field %s has no Lean type", exprText(v))
+						}
+						if lt, _ := leanType(xt, f.spec.Exact); strings.HasPrefix(lt, "(") {
+							// a record represented as a tuple: project by position
+							for i := 0; i < st.NumFields(); i++ {
+								if st.Field(i).Name() == v.Sel.Name {
+									return tupleProj(f.expr(v.X), i, st.NumFields())
+								}
+							}
+						}
+						return f.expr(v.X) + "." + ident(v.Sel.Name)
+					}
+				}
+			}
+		}
 		return f.fail(v, "selector %s", exprText(v))
+	case *ast.CompositeLit:
+		return f.compositeLit(v)
 	case *ast.UnaryExpr:
 		switch v.Op {
 		case token.NOT:
@@ -483,6 +600,18 @@ func (f *fn) expr(e ast.Expr) string {
 	case *ast.BinaryExpr:
 		// comparison with nil of a function-valued field
 		if id, ok := v.Y.(*ast.Ident); ok && id.Name == "nil" {
+			if isPkgType(f.typeOf(v.X), "net", "Conn") {
+				if v.Op == token.NEQ {
+					return "(" + f.expr(v.X) + " != 0)"
+				}
+				return "(" + f.expr(v.X) + " == 0)"
+			}
+			if lt, _ := leanType(f.typeOf(v.X), f.spec.Exact); lt == errType {
+				if v.Op == token.NEQ {
+					return "(" + f.expr(v.X) + ").isSome"
+				}
+				return "(" + f.expr(v.X) + ").isNone"
+			}
 			_, isSig := f.typeOf(v.X).Underlying().(*types.Signature)
 			_, isPtr := f.typeOf(v.X).(*types.Pointer)
 			if isSig || isPtr {
@@ -526,6 +655,14 @@ func (f *fn) expr(e ast.Expr) string {
 				return "(Int.tdiv " + x + " " + y + ")" // Go truncates toward zero
 			}
 			return "(" + x + " / " + y + ")"
+		case token.REM:
+			if xt == "Nat" {
+				return "(" + x + " % " + y + ")"
+			}
+			if xt == "Int" {
+				return "(Int.tmod " + x + " " + y + ")" // Go's remainder has the sign of the dividend
+			}
+			return f.fail(v, "remainder of %s", xt)
 		case token.SHR:
 			if f.spec.Exact {
 				return "(" + x + " >>> " + y + ")"
@@ -553,7 +690,27 @@ func (f *fn) expr(e ast.Expr) string {
 		if _, isMap := f.typeOf(v.X).Underlying().(*types.Map); isMap {
 			return "(" + f.expr(v.X) + " " + f.expr(v.Index) + ")"
 		}
+		if _, isSlice := f.typeOf(v.X).Underlying().(*types.Slice); isSlice {
+			switch f.lt(v.Index) {
+			case "Nat":
+				return "(listGet " + f.expr(v.X) + " " + f.expr(v.Index) + ")"
+			case "Int":
+				return "(listGet " + f.expr(v.X) + " (Int.toNat " + f.expr(v.Index) + "))"
+			}
+		}
 		return f.fail(v, "index of a non-map")
+	case *ast.SliceExpr:
+		if v.Low == nil && v.High != nil && v.Max == nil {
+			if _, isSlice := f.typeOf(v.X).Underlying().(*types.Slice); isSlice {
+				switch f.lt(v.High) {
+				case "Int":
+					return "(List.take (Int.toNat " + f.expr(v.High) + ") " + f.expr(v.X) + ")"
+				case "Nat":
+					return "(List.take " + f.expr(v.High) + " " + f.expr(v.X) + ")"
+				}
+			}
+		}
+		return f.fail(v, "slice expression")
 	case *ast.CallExpr:
 		return f.callExpr(v)
 	}
@@ -576,7 +733,150 @@ func exprText(e ast.Expr) string {
 	return fmt.Sprintf("%T", e)
 }
 
+// compositeLit: a record literal (tuple), a slice literal (list) or a string-keyed set written as a
+// map literal with `true` values (a membership function)
+func (f *fn) compositeLit(cl *ast.CompositeLit) string {
+	t := f.typeOf(cl)
+	if t == nil {
+		return f.fail(cl, "composite literal without type")
+	}
+	switch u := t.Underlying().(type) {
+	case *types.Struct:
+		var parts []string
+		for i, el := range cl.Elts {
+			if kv, ok := el.(*ast.KeyValueExpr); ok {
+				if id, ok := kv.Key.(*ast.Ident); !ok || i >= u.NumFields() || id.Name != u.Field(i).Name() {
+					return f.fail(cl, "record literal fields out of order")
+				}
+				parts = append(parts, f.expr(kv.Value))
+			} else {
+				parts = append(parts, f.expr(el))
+			}
+		}
+		if len(parts) != u.NumFields() {
+			return f.fail(cl, "record literal does not set every field")
+		}
+		return "(" + strings.Join(parts, ", ") + ")"
+	case *types.Slice:
+		var parts []string
+		for _, el := range cl.Elts {
+			parts = append(parts, f.expr(el))
+		}
+		return "[" + strings.Join(parts, ", ") + "]"
+	case *types.Map:
+		var keys []string
+		for _, el := range cl.Elts {
+			kv, ok := el.(*ast.KeyValueExpr)
+			if !ok {
+				return f.fail(cl, "map literal form")
+			}
+			if id, ok := kv.Value.(*ast.Ident); !ok || id.Name != "true" {
+				return f.fail(cl, "map literal with values other than true")
+			}
+			keys = append(keys, f.expr(kv.Key))
+		}
+		return "(fun (k : String) => [" + strings.Join(keys, ", ") + "].contains k)"
+	}
+	return f.fail(cl, "composite literal of %s", t)
+}
+
+// hoistAtomics: `atomic.AddUint64(&s.f, d)` inside an expression is the update `s.f += d` followed
+// by a read of `s.f` (one atomic step; the function is one atomic step as a whole in this model)
+func (f *fn) hoistAtomics(e ast.Expr, ind string) string {
+	out := ""
+	ast.Inspect(e, func(n ast.Node) bool {
+		c, ok := n.(*ast.CallExpr)
+		if !ok || len(c.Args) != 2 {
+			return true
+		}
+		if _, done := f.hoisted[c]; done {
+			return false
+		}
+		sel, ok := c.Fun.(*ast.SelectorExpr)
+		if !ok || !strings.HasPrefix(sel.Sel.Name, "Add") {
+			return true
+		}
+		p, ok := sel.X.(*ast.Ident)
+		if !ok {
+			return true
+		}
+		if pn, ok := f.l.info.Uses[p].(*types.PkgName); !ok || pn.Imported().Path() != "sync/atomic" {
+			return true
+		}
+		u, ok := c.Args[0].(*ast.UnaryExpr)
+		if !ok || u.Op != token.AND {
+			return true
+		}
+		target, ok := u.X.(*ast.SelectorExpr)
+		if !ok {
+			return true
+		}
+		d := f.expr(c.Args[1])
+		if tv, ok := f.l.info.Types[c.Args[1]]; ok && tv.Value != nil {
+			d = constLit(tv.Value, f.lt(target))
+		}
+		st, ok := f.assignPath(target, "("+f.expr(target)+" + "+d+")")
+		if !ok {
+			return true
+		}
+		out += ind + st + "\n"
+		if f.hoisted == nil {
+			f.hoisted = map[*ast.CallExpr]string{}
+		}
+		f.hoisted[c] = f.expr(target)
+		return false
+	})
+	return out
+}
+
 func (f *fn) callExpr(c *ast.CallExpr) string {
+	if h, ok := f.hoisted[c]; ok {
+		return h
+	}
+	if g, recv := f.translatedCallee(c); g != nil && !g.mutates && len(g.stateVar) == 1 && len(g.results) >= 1 && !g.hasLoop {
+		// a method that only reads its receiver, used for its value
+		args := []string{f.expr(recv)}
+		for _, a := range c.Args {
+			args = append(args, f.expr(a))
+		}
+		if g.usesNow {
+			f.usesNow = true
+			args = append(args, "now")
+		}
+		return "(" + g.leanName + " " + strings.Join(args, " ") + ").2"
+	}
+	if sel, ok := c.Fun.(*ast.SelectorExpr); ok && len(c.Args) == 1 {
+		if p, ok := sel.X.(*ast.Ident); ok {
+			if pn, ok := f.l.info.Uses[p].(*types.PkgName); ok && pn.Imported().Path() == "sync/atomic" && strings.HasPrefix(sel.Sel.Name, "Load") {
+				if u, ok := c.Args[0].(*ast.UnaryExpr); ok && u.Op == token.AND {
+					return f.expr(u.X) // an atomic read of a field: the field
+				}
+			}
+		}
+	}
+	if sel, ok := c.Fun.(*ast.SelectorExpr); ok {
+		if p, ok := sel.X.(*ast.Ident); ok {
+			if pn, ok := f.l.info.Uses[p].(*types.PkgName); ok {
+				switch pn.Imported().Path() + "." + sel.Sel.Name {
+				case "fmt.Errorf":
+					// the format string and the string-valued arguments (numbers only decorate the message)
+					lit, ok := c.Args[0].(*ast.BasicLit)
+					if !ok {
+						return f.fail(c, "fmt.Errorf without a literal format")
+					}
+					var sargs []string
+					for _, a := range c.Args[1:] {
+						if b, ok := f.typeOf(a).Underlying().(*types.Basic); ok && b.Info()&types.IsString != 0 {
+							sargs = append(sargs, f.expr(a))
+						}
+					}
+					return "(some (" + lit.Value + ", [" + strings.Join(sargs, ", ") + "]))"
+				case "strings.HasPrefix":
+					return "(strHasPrefix " + f.expr(c.Args[0]) + " " + f.expr(c.Args[1]) + ")"
+				}
+			}
+		}
+	}
 	// conversion
 	if tv, ok := f.l.info.Types[c.Fun]; ok && tv.IsType() && len(c.Args) == 1 {
 		to, ok := leanType(tv.Type, f.spec.Exact)
@@ -588,6 +888,32 @@ func (f *fn) callExpr(c *ast.CallExpr) string {
 	if id, ok := c.Fun.(*ast.Ident); ok {
 		switch id.Name {
 		case "append":
+			if _, isSlice := f.typeOf(c.Args[0]).Underlying().(*types.Slice); isSlice && len(c.Args) >= 2 {
+				if lt, _ := leanType(f.typeOf(c.Args[0]), f.spec.Exact); strings.HasPrefix(lt, "(List") {
+					allLits := true
+					for _, a := range c.Args[1:] {
+						if cl, ok := a.(*ast.CompositeLit); !ok || len(cl.Elts) == 0 {
+							allLits = false
+						} else if _, kv := cl.Elts[0].(*ast.KeyValueExpr); kv {
+							allLits = false // keyed literals keep the stricter path below
+						}
+					}
+					if allLits {
+						var parts []string
+						for _, a := range c.Args[1:] {
+							parts = append(parts, f.expr(a))
+						}
+						return "(" + f.expr(c.Args[0]) + " ++ [" + strings.Join(parts, ", ") + "])"
+					}
+				}
+			}
+			if len(c.Args) == 2 && !c.Ellipsis.IsValid() {
+				if _, isLit := c.Args[1].(*ast.CompositeLit); !isLit {
+					if sl, isSlice := f.typeOf(c.Args[0]).Underlying().(*types.Slice); isSlice && types.Identical(sl.Elem(), f.typeOf(c.Args[1])) {
+						return "(" + f.expr(c.Args[0]) + " ++ [" + f.expr(c.Args[1]) + "])"
+					}
+				}
+			}
 			if len(c.Args) == 2 {
 				if cl, ok := c.Args[1].(*ast.CompositeLit); ok {
 					var parts []string
@@ -613,14 +939,34 @@ func (f *fn) callExpr(c *ast.CallExpr) string {
 			return f.fail(c, "append form")
 		case "len":
 			return "(Int.ofNat " + f.expr(c.Args[0]) + ".length)"
+		case "make":
+			if _, isSlice := f.typeOf(c).Underlying().(*types.Slice); isSlice {
+				if n, ok := f.l.info.Types[c.Args[1]]; !ok || n.Value == nil || n.Value.ExactString() != "0" {
+					return f.fail(c, "make with a length")
+				}
+				return "[]"
+			}
 		}
 	}
 	if sel, ok := c.Fun.(*ast.SelectorExpr); ok {
+		if xt := f.typeOf(sel.X); xt != nil && isPkgType(xt, "bytes", "Buffer") {
+			switch sel.Sel.Name {
+			case "Len":
+				return "(Int.ofNat " + f.expr(sel.X) + ".length)"
+			case "Bytes":
+				return f.expr(sel.X)
+			}
+			return f.fail(c, "bytes.Buffer method %s as a value", sel.Sel.Name)
+		}
 		// time.Now()
 		if p, ok := sel.X.(*ast.Ident); ok {
 			if pn, ok := f.l.info.Uses[p].(*types.PkgName); ok && pn.Imported().Path() == "time" && sel.Sel.Name == "Now" {
 				f.usesNow = true
 				return "now"
+			}
+			if pn, ok := f.l.info.Uses[p].(*types.PkgName); ok && pn.Imported().Path() == "time" && sel.Sel.Name == "Since" && len(c.Args) == 1 {
+				f.usesNow = true
+				return "(now - " + f.expr(c.Args[0]) + ")"
 			}
 		}
 		// methods of time.Time / time.Duration values
@@ -646,6 +992,75 @@ func (f *fn) callExpr(c *ast.CallExpr) string {
 	return f.fail(c, "call %s", exprText(c.Fun))
 }
 
+// isOptLocal: a local of pointer type, held as an `Option`
+func (f *fn) isOptLocal(id *ast.Ident) bool {
+	o := f.l.info.Uses[id]
+	if o == nil {
+		o = f.l.info.Defs[id]
+	}
+	return o != nil && f.optLocals[o]
+}
+
+// optExpr: an expression of pointer type as an `Option`: nil, an `Option` local, or a record known to exist
+func (f *fn) optExpr(e ast.Expr) string {
+	if id, ok := e.(*ast.Ident); ok {
+		if id.Name == "nil" {
+			return "none"
+		}
+		if f.isOptLocal(id) {
+			return ident(id.Name)
+		}
+	}
+	return "(some " + f.expr(e) + ")"
+}
+
+// connClose: `c.Close()` on a net.Conn: recorded on the first tracked object (the receiver)
+func (f *fn) connClose(c *ast.CallExpr) (string, bool) {
+	sel, ok := c.Fun.(*ast.SelectorExpr)
+	if !ok || sel.Sel.Name != "Close" || len(c.Args) != 0 || len(f.stateVar) == 0 {
+		return "", false
+	}
+	if xt := f.typeOf(sel.X); xt == nil || !isPkgType(xt, "net", "Conn") {
+		return "", false
+	}
+	sv := f.stateVar[0]
+	structsWithClosed[sv.lean] = true
+	f.mutates = true
+	n := ident(sv.name)
+	return "let " + n + " := { " + n + " with closedConns := " + n + ".closedConns ++ [" + f.expr(sel.X) + "] }", true
+}
+
+// downstream: a call `x.ResponseWriter.M(..)` on the writer a wrapper `x` (a tracked object) embeds.
+// The call is kept as an entry ("M", number) appended to the synthetic field `out` of x: what the
+// wrapper hands on, in order. `Write` is taken to accept everything it is given (len(b), nil).
+func (f *fn) downstream(c *ast.CallExpr) (stateVar, string, bool) {
+	sel, ok := c.Fun.(*ast.SelectorExpr)
+	if !ok {
+		return stateVar{}, "", false
+	}
+	if inner, ok := sel.X.(*ast.SelectorExpr); ok && inner.Sel.Name == "ResponseWriter" {
+		if s, ok := f.isState(inner.X); ok {
+			return s, sel.Sel.Name, true
+		}
+	}
+	// f.Flush() where f came from `f, ok := x.ResponseWriter.(http.Flusher)`
+	if id, ok := sel.X.(*ast.Ident); ok {
+		if o := f.l.info.Uses[id]; o != nil {
+			if s, ok := f.asserted[o]; ok {
+				return s, sel.Sel.Name, true
+			}
+		}
+	}
+	return stateVar{}, "", false
+}
+
+func (f *fn) emitOut(s stateVar, method, num string) string {
+	structsWithOut[s.lean] = true
+	f.mutates = true
+	n := ident(s.name)
+	return "let " + n + " := { " + n + " with out := " + n + ".out ++ [(" + fmt.Sprintf("%q", method) + ", " + num + ")] }"
+}
+
 // ---- statements -------------------------------------------------------------------------------
 
 type cont func(ind string) string
@@ -660,8 +1075,17 @@ func (f *fn) retTuple(vals []string) string {
 	if len(parts) != 1 {
 		t = "(" + t + ")"
 	}
+	if f.retWrap == "fuel" {
+		if len(parts) == 1 {
+			t = "(" + t + ")"
+		}
+		return "some (.inl " + t + ")"
+	}
 	if f.hasLoop {
-		return "some " + t
+		t = "some " + t
+	}
+	if f.retWrap != "" {
+		return f.retWrap + " (" + t + ")"
 	}
 	return t
 }
@@ -728,6 +1152,39 @@ func (f *fn) translatedCallee(c *ast.CallExpr) (*fn, ast.Expr) {
 
 // callStmt: a call of a translated method for its effect on the objects it is given
 func (f *fn) callStmt(c *ast.CallExpr, ind string, k cont) string {
+	if st, ok := f.connClose(c); ok {
+		return ind + st + "\n" + k(ind)
+	}
+	if sel, ok := c.Fun.(*ast.SelectorExpr); ok {
+		if xt := f.typeOf(sel.X); xt != nil && isPkgType(xt, "bytes", "Buffer") {
+			if target, ok := sel.X.(*ast.SelectorExpr); ok {
+				switch sel.Sel.Name {
+				case "Reset":
+					if st, ok := f.assignPath(target, "[]"); ok {
+						return ind + st + "\n" + k(ind)
+					}
+				case "Write":
+					if st, ok := f.assignPath(target, "("+f.expr(target)+" ++ "+f.expr(c.Args[0])+")"); ok {
+						return ind + st + "\n" + k(ind)
+					}
+				}
+			}
+			return ind + f.fail(c, "bytes.Buffer call %s", sel.Sel.Name)
+		}
+	}
+	if sv, m, ok := f.downstream(c); ok {
+		switch {
+		case m == "WriteHeader" && len(c.Args) == 1:
+			code := f.expr(c.Args[0])
+			if tv, ok := f.l.info.Types[c.Args[0]]; ok && tv.Value != nil {
+				code = constLit(tv.Value, "Int")
+			}
+			return ind + f.emitOut(sv, m, code) + "\n" + k(ind)
+		case m == "Flush" && len(c.Args) == 0:
+			return ind + f.emitOut(sv, m, "(0 : Int)") + "\n" + k(ind)
+		}
+		return ind + f.fail(c, "call %s of the wrapped writer", m)
+	}
 	if sel, ok := c.Fun.(*ast.SelectorExpr); ok && effectCalls[sel.Sel.Name] {
 		if inner, ok := sel.X.(*ast.SelectorExpr); ok {
 			if s, ok := f.isState(inner.X); ok {
@@ -736,6 +1193,7 @@ func (f *fn) callStmt(c *ast.CallExpr, ind string, k cont) string {
 					args = append(args, f.expr(a))
 				}
 				structsWithFx[s.lean] = true
+				f.mutates = true
 				n := ident(s.name)
 				return ind + "let " + n + " := { " + n + " with fx := " + n + ".fx ++ [(" + strings.Join(args, ", ") + ")] }\n" + k(ind)
 			}
@@ -748,6 +1206,9 @@ func (f *fn) callStmt(c *ast.CallExpr, ind string, k cont) string {
 	}
 	if len(g.results) != 0 {
 		return ind + f.fail(c, "result of %s dropped", g.spec.Name)
+	}
+	if g.mutates {
+		f.mutates = true
 	}
 	var args, outs []string
 	rs, ok := f.isState(recv)
@@ -801,11 +1262,13 @@ func (f *fn) callStmt(c *ast.CallExpr, ind string, k cont) string {
 func (f *fn) assignPath(v *ast.SelectorExpr, rhs string) (string, bool) {
 	if s, ok := f.isState(v.X); ok {
 		n := ident(s.name)
+		f.mutates = true
 		return "let " + n + " := { " + n + " with " + ident(v.Sel.Name) + " := " + rhs + " }", true
 	}
 	if inner, ok := v.X.(*ast.SelectorExpr); ok && nestedFields[inner.Sel.Name] {
 		if s, ok := f.isState(inner.X); ok {
 			n, m := ident(s.name), ident(inner.Sel.Name)
+			f.mutates = true
 			return "let " + n + " := { " + n + " with " + m + " := { " + n + "." + m + " with " + ident(v.Sel.Name) + " := " + rhs + " } }", true
 		}
 	}
@@ -848,6 +1311,9 @@ func (f *fn) block(list []ast.Stmt, ind string, k cont) string {
 		return f.block(s.List, ind, rest)
 	case *ast.DeclStmt:
 		gd, ok := s.Decl.(*ast.GenDecl)
+		if ok && gd.Tok == token.TYPE {
+			return rest(ind) // a local record type: its values are tuples
+		}
 		if !ok || gd.Tok != token.VAR {
 			return ind + f.fail(s, "declaration")
 		}
@@ -855,6 +1321,14 @@ func (f *fn) block(list []ast.Stmt, ind string, k cont) string {
 		for _, sp := range gd.Specs {
 			vs := sp.(*ast.ValueSpec)
 			for i, n := range vs.Names {
+				if pn := ptrStruct(f.l.info.Defs[n].Type()); pn != nil && len(vs.Values) == 0 {
+					if f.optLocals == nil {
+						f.optLocals = map[types.Object]bool{}
+					}
+					f.optLocals[f.l.info.Defs[n]] = true
+					out += ind + "let " + ident(n.Name) + " : Option " + needStruct(pn) + " := none\n"
+					continue
+				}
 				lt, ok := leanType(f.l.info.Defs[n].Type(), f.spec.Exact)
 				if !ok {
 					return ind + f.fail(s, "type of %s", n.Name)
@@ -866,13 +1340,19 @@ func (f *fn) block(list []ast.Stmt, ind string, k cont) string {
 						val = constLit(tv.Value, lt)
 					}
 				} else {
+					switch {
+					case strings.HasPrefix(lt, "(List"):
+						val = "[]"
+					}
 					switch lt {
 					case "Bool":
 						val = "false"
 					case "String":
 						val = "\"\""
 					default:
-						val = "(0 : " + lt + ")"
+						if val == "" {
+							val = "(0 : " + lt + ")"
+						}
 					}
 				}
 				out += ind + "let " + ident(n.Name) + " : " + lt + " := " + val + "\n"
@@ -880,7 +1360,76 @@ func (f *fn) block(list []ast.Stmt, ind string, k cont) string {
 		}
 		return out + rest(ind)
 	case *ast.AssignStmt:
+		if len(s.Lhs) == 2 && len(s.Rhs) == 1 {
+			if ix, ok := s.Rhs[0].(*ast.IndexExpr); ok {
+				if _, ok := f.isState(s.Lhs[0]); ok {
+					// obj, exists := m[k]: the object (if any) is handed in by the caller, with whether it exists
+					return rest(ind)
+				}
+				_ = ix
+			}
+			if c, ok := s.Rhs[0].(*ast.CallExpr); ok {
+				if sv, m, ok := f.downstream(c); ok && m == "Write" && len(c.Args) == 1 {
+					n := "(Int.ofNat " + f.expr(c.Args[0]) + ".length)"
+					out := ind + f.emitOut(sv, m, n) + "\n"
+					out += f.assign(s.Lhs[0], n, ind)
+					out += f.assign(s.Lhs[1], "(none : "+errType+")", ind)
+					return out + rest(ind)
+				}
+			}
+			// f, ok := x.ResponseWriter.(http.Flusher)
+			if ta, ok := s.Rhs[0].(*ast.TypeAssertExpr); ok && s.Tok == token.DEFINE {
+				if inner, ok := ta.X.(*ast.SelectorExpr); ok && inner.Sel.Name == "ResponseWriter" {
+					if sv, ok := f.isState(inner.X); ok && exprText(ta.Type) == "http.Flusher" {
+						fid, okid := s.Lhs[0].(*ast.Ident), s.Lhs[1].(*ast.Ident)
+						if f.asserted == nil {
+							f.asserted = map[types.Object]stateVar{}
+						}
+						if o := f.l.info.Defs[fid]; o != nil {
+							f.asserted[o] = sv
+						}
+						structsWithFlusher[sv.lean] = true
+						return ind + "let " + ident(okid.Name) + " := " + ident(sv.name) + ".rwFlusher\n" + rest(ind)
+					}
+				}
+			}
+		}
 		if len(s.Lhs) == 1 && len(s.Rhs) == 1 {
+			if c, ok := s.Rhs[0].(*ast.CallExpr); ok {
+				if id, ok := s.Lhs[0].(*ast.Ident); ok && id.Name == "_" {
+					if st, ok := f.connClose(c); ok {
+						return ind + st + "\n" + rest(ind)
+					}
+				}
+			}
+			// x = &T{..} on a tracked object: a fresh record with the listed fields
+			if u, ok := s.Rhs[0].(*ast.UnaryExpr); ok && u.Op == token.AND {
+				if cl, ok := u.X.(*ast.CompositeLit); ok {
+					if sv, ok := f.isState(s.Lhs[0]); ok {
+						var parts []string
+						for _, el := range cl.Elts {
+							kv, ok := el.(*ast.KeyValueExpr)
+							if !ok {
+								return ind + f.fail(s, "positional record literal")
+							}
+							if _, ok := leanType(f.typeOf(kv.Value), f.spec.Exact); !ok {
+								continue // a field without a Lean representation
+							}
+							parts = append(parts, ident(kv.Key.(*ast.Ident).Name)+" := "+f.expr(kv.Value))
+						}
+						f.mutates = true
+						return ind + "let " + ident(sv.name) + " : " + sv.lean + " := { (default : " + sv.lean + ") with " + strings.Join(parts, ", ") + " }\n" + rest(ind)
+					}
+				}
+			}
+			// m[k] = obj: the caller keeps the object under the key
+			if ix, ok := s.Lhs[0].(*ast.IndexExpr); ok {
+				if _, isMap := f.typeOf(ix.X).Underlying().(*types.Map); isMap {
+					if _, ok := f.isState(s.Rhs[0]); ok {
+						return rest(ind)
+					}
+				}
+			}
 			// object handed in by the caller
 			if c, ok := s.Rhs[0].(*ast.CallExpr); ok {
 				if sel, ok := c.Fun.(*ast.SelectorExpr); ok && f.spec.Extern[sel.Sel.Name] {
@@ -889,6 +1438,42 @@ func (f *fn) block(list []ast.Stmt, ind string, k cont) string {
 			}
 			if c, ok := s.Rhs[0].(*ast.CallExpr); ok && f.isLogging(c) {
 				return rest(ind) // a logger value: only used by log statements
+			}
+			if c, ok := s.Rhs[0].(*ast.CallExpr); ok {
+				if g, recv := f.translatedCallee(c); g != nil && len(g.results) == 1 && g.mutates {
+					f.mutates = true
+					// x := obj.method() of a translated method: the objects it was given come back with the result
+					rs, ok := f.isState(recv)
+					if !ok || len(g.stateVar) != 1 {
+						return ind + f.fail(s, "call of %s on an untracked object", g.spec.Name)
+					}
+					if g.usesNow {
+						f.usesNow = true
+					}
+					f.loopN++
+					r := fmt.Sprintf("r_%d", f.loopN)
+					call := g.leanName + " " + ident(rs.name)
+					for _, a := range c.Args {
+						if _, isObj := f.isState(a); isObj {
+							return ind + f.fail(s, "call of %s with a tracked object as argument", g.spec.Name)
+						}
+						call += " " + f.expr(a)
+					}
+					if g.usesNow {
+						call += " now"
+					}
+					out := ind + "let " + r + " := " + call + "\n" + ind + "let " + ident(rs.name) + " := " + r + ".1\n"
+					if id, ok := s.Lhs[0].(*ast.Ident); ok && id.Name != "_" {
+						out += ind + "let " + ident(id.Name) + " := " + r + ".2\n"
+					}
+					return out + rest(ind)
+				}
+			}
+			if pre := f.hoistAtomics(s.Rhs[0], ind); pre != "" {
+				return pre + f.block(list, ind, k) // the call is now a plain read
+			}
+			if id, ok := s.Lhs[0].(*ast.Ident); ok && f.isOptLocal(id) && s.Tok == token.ASSIGN {
+				return ind + "let " + ident(id.Name) + " := " + f.optExpr(s.Rhs[0]) + "\n" + rest(ind)
 			}
 			rhs := f.expr(s.Rhs[0])
 			lt := f.lt(s.Lhs[0])
@@ -937,14 +1522,40 @@ func (f *fn) block(list []ast.Stmt, ind string, k cont) string {
 		}
 		return ind + f.fail(s, "defer %s", exprText(s.Call.Fun))
 	case *ast.ReturnStmt:
+		if len(s.Results) == 1 && len(f.results) == 2 {
+			if c, ok := s.Results[0].(*ast.CallExpr); ok && len(c.Args) == 1 {
+				n := "(Int.ofNat " + f.expr(c.Args[0]) + ".length)"
+				// return x.ResponseWriter.Write(b): handed on, taken whole
+				if sv, m, ok := f.downstream(c); ok && m == "Write" {
+					return ind + f.emitOut(sv, m, n) + "\n" + ind + f.retTuple([]string{n, "(none : " + errType + ")"}) + "\n"
+				}
+				// return x.buf.Write(b): appended (a bytes.Buffer write does not fail)
+				if sel, ok := c.Fun.(*ast.SelectorExpr); ok && sel.Sel.Name == "Write" {
+					if xt := f.typeOf(sel.X); xt != nil && isPkgType(xt, "bytes", "Buffer") {
+						if target, ok := sel.X.(*ast.SelectorExpr); ok {
+							if st, ok := f.assignPath(target, "("+f.expr(target)+" ++ "+f.expr(c.Args[0])+")"); ok {
+								return ind + st + "\n" + ind + f.retTuple([]string{n, "(none : " + errType + ")"}) + "\n"
+							}
+						}
+					}
+				}
+			}
+		}
 		var vals []string
 		for i, r := range s.Results {
 			v := ""
-			if id, ok := r.(*ast.Ident); ok && id.Name == "nil" {
+			if i < len(f.resultOpt) && f.resultOpt[i] {
+				vals = append(vals, f.optExpr(r))
+				continue
+			}
+			if id, ok := r.(*ast.Ident); ok && id.Name == "nil" && i < len(f.results) && f.results[i] == "Nat" {
+				vals = append(vals, "(0 : Nat)")
+				continue
+			} else if id, ok := r.(*ast.Ident); ok && id.Name == "nil" {
 				v = "none"
-			} else if id, ok := r.(*ast.Ident); ok && i < len(f.results) && f.results[i] == "(Option String)" {
+			} else if id, ok := r.(*ast.Ident); ok && i < len(f.results) && f.results[i] == errType && f.isPkgLevelVar(id) {
 				// a package-level error variable: its name
-				v = fmt.Sprintf("(some %q)", id.Name)
+				v = fmt.Sprintf("(some (%q, []))", id.Name)
 			} else {
 				v = f.expr(r)
 			}
@@ -965,6 +1576,18 @@ func (f *fn) block(list []ast.Stmt, ind string, k cont) string {
 		out := ""
 		if s.Init != nil {
 			return f.block([]ast.Stmt{s.Init, &ast.IfStmt{If: s.If, Cond: s.Cond, Body: s.Body, Else: s.Else}}, ind, rest)
+		}
+		if f.spec.Join && s.Else == nil && onlyAssigns(s.Body) {
+			// if c { x = e1; y = e2 }  ==>  let x := if c then e1 else x; let y := if c then e2 else y
+			f.loopN++
+			cn := fmt.Sprintf("c_%d", f.loopN)
+			out += ind + "let " + cn + " := " + f.expr(s.Cond) + "\n"
+			for _, st := range s.Body.List {
+				as := st.(*ast.AssignStmt)
+				id := as.Lhs[0].(*ast.Ident)
+				out += ind + "let " + ident(id.Name) + " := if " + cn + " then " + f.expr(as.Rhs[0]) + " else " + ident(id.Name) + "\n"
+			}
+			return out + rest(ind)
 		}
 		out += ind + "if " + f.expr(s.Cond) + " then\n"
 		out += f.block(s.Body.List, ind+"  ", rest)
@@ -1024,7 +1647,27 @@ func (f *fn) block(list []ast.Stmt, ind string, k cont) string {
 		}
 		return emit(0, ind)
 	case *ast.ForStmt:
+		if s.Init != nil {
+			return f.block([]ast.Stmt{s.Init, &ast.ForStmt{For: s.For, Cond: s.Cond, Post: s.Post, Body: s.Body}}, ind, rest)
+		}
+		hasRet := false
+		ast.Inspect(s.Body, func(n ast.Node) bool {
+			if _, ok := n.(*ast.ReturnStmt); ok {
+				hasRet = true
+			}
+			return true
+		})
+		if s.Post != nil || hasRet {
+			return f.forLoop(s, ind, rest)
+		}
 		return f.loop(s, ind, rest)
+	case *ast.RangeStmt:
+		return f.rangeLoop(s, ind, rest)
+	case *ast.BranchStmt:
+		if s.Tok == token.CONTINUE && s.Label == nil && f.contK != nil {
+			return f.contK(ind)
+		}
+		return ind + f.fail(s, "%s outside a translated range loop", s.Tok) + "\n"
 	}
 	return ind + f.fail(list[0], "statement %T", list[0]) + "\n"
 }
@@ -1131,6 +1774,430 @@ func (f *fn) loop(s *ast.ForStmt, ind string, k cont) string {
 	return out
 }
 
+// forLoop: `for ; cond; post { body }` whose body may return: a recursion on fuel over the tracked
+// objects and the locals the body or the post statement assign; `some (.inl r)` = the body returned r,
+// `some (.inr v)` = the condition failed with the variables at v, `none` = out of fuel
+func (f *fn) forLoop(s *ast.ForStmt, ind string, k cont) string {
+	if s.Cond == nil || f.retWrap != "" {
+		return ind + f.fail(s, "for form")
+	}
+	bad := false
+	carried := map[types.Object]bool{}
+	var carriedOrder []types.Object
+	inBody := func(o types.Object) bool { return o.Pos() >= s.Body.Pos() && o.Pos() < s.Body.End() }
+	noteAssigned := func(e ast.Expr, define bool) {
+		id, ok := e.(*ast.Ident)
+		if !ok {
+			return // a field of a tracked object: the objects are carried as a whole
+		}
+		if id.Name == "_" {
+			return
+		}
+		o := f.l.info.Uses[id]
+		if o == nil {
+			if define && f.l.info.Defs[id] != nil {
+				return
+			}
+			bad = true
+			return
+		}
+		if inBody(o) {
+			return
+		}
+		if !carried[o] {
+			carried[o] = true
+			carriedOrder = append(carriedOrder, o)
+		}
+	}
+	scan := func(n ast.Node) bool {
+		switch v := n.(type) {
+		case *ast.AssignStmt:
+			for _, l := range v.Lhs {
+				noteAssigned(l, v.Tok == token.DEFINE)
+			}
+		case *ast.IncDecStmt:
+			noteAssigned(v.X, false)
+		case *ast.BranchStmt:
+			if v.Tok != token.CONTINUE || v.Label != nil {
+				bad = true
+			}
+		case *ast.ForStmt, *ast.RangeStmt, *ast.DeferStmt:
+			if n != ast.Node(s) {
+				bad = true
+			}
+		}
+		return true
+	}
+	ast.Inspect(s.Body, scan)
+	if s.Post != nil {
+		ast.Inspect(s.Post, scan)
+	}
+	if bad {
+		return ind + f.fail(s, "loop body form")
+	}
+	sort.Slice(carriedOrder, func(i, j int) bool { return carriedOrder[i].Pos() < carriedOrder[j].Pos() })
+	localType := func(o types.Object) (string, bool) {
+		if f.optLocals[o] {
+			return "(Option " + needStruct(ptrStruct(o.Type())) + ")", true
+		}
+		return leanType(o.Type(), f.spec.Exact)
+	}
+	isStateObj := func(o types.Object) bool {
+		for _, sv := range f.stateVar {
+			if sv.obj == o {
+				return true
+			}
+		}
+		return false
+	}
+	free := map[types.Object]bool{}
+	var freeOrder []types.Object
+	note := func(n ast.Node) {
+		ast.Inspect(n, func(n ast.Node) bool {
+			if id, ok := n.(*ast.Ident); ok {
+				if o, ok := f.l.info.Uses[id].(*types.Var); ok && !o.IsField() && !carried[o] && !free[o] && !isStateObj(o) && !inBody(o) && o.Pkg() != nil && o.Parent() != o.Pkg().Scope() {
+					free[o] = true
+					freeOrder = append(freeOrder, o)
+				}
+			}
+			return true
+		})
+	}
+	note(s.Cond)
+	note(s.Body)
+	if s.Post != nil {
+		note(s.Post)
+	}
+	sort.Slice(freeOrder, func(i, j int) bool { return freeOrder[i].Pos() < freeOrder[j].Pos() })
+	var fargs, fnames, cnames, ctypes []string
+	for _, o := range freeOrder {
+		lt, ok := localType(o)
+		if !ok {
+			return ind + f.fail(s, "loop parameter %s", o.Name())
+		}
+		fargs = append(fargs, "("+ident(o.Name())+" : "+lt+")")
+		fnames = append(fnames, ident(o.Name()))
+	}
+	for _, sv := range f.stateVar {
+		cnames = append(cnames, ident(sv.name))
+		ctypes = append(ctypes, sv.lean)
+	}
+	for _, o := range carriedOrder {
+		lt, ok := localType(o)
+		if !ok {
+			return ind + f.fail(s, "loop variable %s", o.Name())
+		}
+		cnames = append(cnames, ident(o.Name()))
+		ctypes = append(ctypes, lt)
+	}
+	ctup, ctyp := "("+strings.Join(cnames, ", ")+")", "("+strings.Join(ctypes, " × ")+")"
+	if len(cnames) == 1 {
+		ctup, ctyp = cnames[0], ctypes[0]
+	}
+	ast.Inspect(s.Body, func(n ast.Node) bool {
+		if sel, ok := n.(*ast.SelectorExpr); ok {
+			if p, ok := sel.X.(*ast.Ident); ok {
+				if pn, ok := f.l.info.Uses[p].(*types.PkgName); ok && pn.Imported().Path() == "time" && (sel.Sel.Name == "Now" || sel.Sel.Name == "Since") {
+					f.usesNow = true
+				}
+			}
+		}
+		return true
+	})
+	hasNow := false
+	for _, n := range fnames {
+		if n == "now" {
+			hasNow = true
+		}
+	}
+	if f.usesNow && !hasNow {
+		fargs = append(fargs, "(now : Int)")
+		fnames = append(fnames, "now")
+	}
+	f.loopN++
+	name := fmt.Sprintf("%s_loop%d", f.leanName, f.loopN)
+	var rt []string
+	for _, sv := range f.stateVar {
+		rt = append(rt, sv.lean)
+	}
+	rt = append(rt, f.results...)
+	ret := "(" + strings.Join(rt, " × ") + ")"
+	call := strings.TrimSpace(name + " " + strings.Join(fnames, " "))
+	next := func(ind string) string {
+		post := ""
+		if s.Post != nil {
+			post = f.block([]ast.Stmt{s.Post}, ind, func(ind string) string { return "" })
+		}
+		return post + ind + call + " fuel " + ctup + "\n"
+	}
+	usedNowBefore := f.usesNow
+	f.retWrap, f.contK = "fuel", next
+	body := f.block(s.Body.List, "      ", next)
+	f.retWrap, f.contK = "", nil
+	if f.usesNow && !usedNowBefore {
+		return ind + f.fail(s, "the loop reads the clock before the function does")
+	}
+	aux := fmt.Sprintf("/-- the `for` loop of `%s` (line %d): `some (.inl r)` = the body returned r, `some (.inr v)` = the condition failed with the variables at v, `none` = out of fuel -/\ndef %s %s: Nat → %s → Option (Sum %s %s)\n  | 0, _ => none\n  | fuel+1, %s =>\n    if %s then\n%s    else some (.inr %s)\n",
+		f.spec.Name, fset.Position(s.Pos()).Line, name, strings.Join(append(fargs, ""), " "), ctyp, ret, ctyp, ctup, f.expr(s.Cond), body, ctup)
+	f.aux = append(f.aux, aux)
+	out := ind + "match " + call + " fuel " + ctup + " with\n"
+	out += ind + "| none => none\n"
+	out += ind + "| some (.inl r_) => some r_\n"
+	out += ind + "| some (.inr " + ctup + ") =>\n" + k(ind+"  ")
+	return out
+}
+
+// rangeLoop: `for i, x := range xs { … }` whose body only reads and may return: a recursion over the
+// list that yields `some result` when the body returns and `none` when the list is exhausted
+func (f *fn) rangeLoop(s *ast.RangeStmt, ind string, k cont) string {
+	if s.Tok != token.DEFINE {
+		return ind + f.fail(s, "range without :=")
+	}
+	if _, isSlice := f.typeOf(s.X).Underlying().(*types.Slice); !isSlice {
+		return ind + f.fail(s, "range over a non-slice")
+	}
+	bad := false
+	// locals of the enclosing function the body assigns: carried from one iteration to the next
+	carried := map[types.Object]bool{}
+	var carriedOrder []types.Object
+	noteAssigned := func(e ast.Expr, define bool) {
+		id, ok := e.(*ast.Ident)
+		if !ok {
+			bad = true
+			return
+		}
+		if id.Name == "_" {
+			return
+		}
+		o := f.l.info.Uses[id]
+		if o == nil {
+			if define && f.l.info.Defs[id] != nil {
+				return // a fresh local of the body
+			}
+			bad = true
+			return
+		}
+		if o.Pos() >= s.Body.Pos() && o.Pos() < s.Body.End() {
+			return // declared inside the body
+		}
+		if !carried[o] {
+			carried[o] = true
+			carriedOrder = append(carriedOrder, o)
+		}
+	}
+	ast.Inspect(s.Body, func(n ast.Node) bool {
+		switch v := n.(type) {
+		case *ast.AssignStmt:
+			for _, l := range v.Lhs {
+				noteAssigned(l, v.Tok == token.DEFINE)
+			}
+		case *ast.IncDecStmt:
+			noteAssigned(v.X, false)
+		case *ast.BranchStmt:
+			if v.Tok != token.CONTINUE || v.Label != nil {
+				bad = true
+			}
+		case *ast.ForStmt, *ast.RangeStmt, *ast.DeferStmt:
+			bad = true
+		}
+		return true
+	})
+	if bad || f.retWrap != "" {
+		return ind + f.fail(s, "range body form")
+	}
+	sort.Slice(carriedOrder, func(i, j int) bool { return carriedOrder[i].Pos() < carriedOrder[j].Pos() })
+	var elemT string
+	if pn := ptrStruct(f.typeOf(s.X).Underlying().(*types.Slice).Elem()); pn != nil && slicesOfRecords[pn.Obj().Name()] {
+		elemT = needStruct(pn)
+	}
+	et, ok := leanType(f.typeOf(s.X).Underlying().(*types.Slice).Elem(), f.spec.Exact)
+	if elemT != "" {
+		et, ok = elemT, true
+	}
+	if !ok {
+		return ind + f.fail(s, "range element type")
+	}
+	keyName, valName := "i_", "x_"
+	if id, ok := s.Key.(*ast.Ident); ok && id.Name != "_" {
+		keyName = ident(id.Name)
+	}
+	if s.Value != nil {
+		if id, ok := s.Value.(*ast.Ident); ok && id.Name != "_" {
+			valName = ident(id.Name)
+		}
+	}
+	// free variables of the body: locals and objects of the enclosing function
+	declared := map[types.Object]bool{}
+	for _, e := range []ast.Expr{s.Key, s.Value} {
+		if id, ok := e.(*ast.Ident); ok {
+			if o := f.l.info.Defs[id]; o != nil {
+				declared[o] = true
+			}
+		}
+	}
+	var freeOrder []types.Object
+	free := map[types.Object]bool{}
+	ast.Inspect(s.Body, func(n ast.Node) bool {
+		if id, ok := n.(*ast.Ident); ok {
+			if o, ok := f.l.info.Uses[id].(*types.Var); ok && !o.IsField() && !declared[o] && !free[o] && !carried[o] && o.Pkg() != nil && o.Parent() != o.Pkg().Scope() &&
+				!(o.Pos() >= s.Body.Pos() && o.Pos() < s.Body.End()) {
+				free[o] = true
+				freeOrder = append(freeOrder, o)
+			}
+		}
+		return true
+	})
+	sort.Slice(freeOrder, func(i, j int) bool { return freeOrder[i].Pos() < freeOrder[j].Pos() })
+	var fargs, fnames []string
+	isStateObj := func(o types.Object) (stateVar, bool) {
+		for _, sv := range f.stateVar {
+			if sv.obj == o {
+				return sv, true
+			}
+		}
+		return stateVar{}, false
+	}
+	for _, sv := range f.stateVar { // the objects are part of every result
+		fargs = append(fargs, "("+ident(sv.name)+" : "+sv.lean+")")
+		fnames = append(fnames, ident(sv.name))
+	}
+	localType := func(o types.Object) (string, bool) {
+		if f.optLocals[o] {
+			return "(Option " + needStruct(ptrStruct(o.Type())) + ")", true
+		}
+		return leanType(o.Type(), f.spec.Exact)
+	}
+	for _, o := range freeOrder {
+		if _, ok := isStateObj(o); ok {
+			continue
+		}
+		lt, ok := localType(o)
+		if !ok {
+			return ind + f.fail(s, "range body uses %s", o.Name())
+		}
+		fargs = append(fargs, "("+ident(o.Name())+" : "+lt+")")
+		fnames = append(fnames, ident(o.Name()))
+	}
+	var cnames, ctypes []string
+	for _, o := range carriedOrder {
+		lt, ok := localType(o)
+		if !ok {
+			return ind + f.fail(s, "range body assigns %s", o.Name())
+		}
+		cnames = append(cnames, ident(o.Name()))
+		ctypes = append(ctypes, lt)
+	}
+	ctup, ctyp := "("+strings.Join(cnames, ", ")+")", "("+strings.Join(ctypes, " × ")+")"
+	if len(cnames) == 1 {
+		ctup, ctyp = cnames[0], ctypes[0]
+	}
+	// does the body update a tracked object? (a dry run decides; then the objects travel too)
+	{
+		saveN, saveAux, saveProb, saveFailed, saveMut, saveNow := f.loopN, len(f.aux), len(problems), f.failed, f.mutates, f.usesNow
+		f.mutates = false
+		f.retWrap, f.contK = "some", func(ind string) string { return "" }
+		f.block(s.Body.List, "", func(ind string) string { return "" })
+		f.retWrap, f.contK = "", nil
+		bodyMutates := f.mutates
+		f.loopN, f.aux, problems, f.failed, f.mutates = saveN, f.aux[:saveAux], problems[:saveProb], saveFailed, saveMut
+		_ = saveNow
+		if bodyMutates {
+			var keepArgs, keepNames []string
+			for i, n := range fnames {
+				isObj := false
+				for _, sv := range f.stateVar {
+					if ident(sv.name) == n {
+						isObj = true
+					}
+				}
+				if !isObj {
+					keepArgs = append(keepArgs, fargs[i])
+					keepNames = append(keepNames, n)
+				}
+			}
+			fargs, fnames = keepArgs, keepNames
+			var sn, stp []string
+			for _, sv := range f.stateVar {
+				sn = append(sn, ident(sv.name))
+				stp = append(stp, sv.lean)
+			}
+			cnames = append(sn, cnames...)
+			ctypes = append(stp, ctypes...)
+			ctup, ctyp = "("+strings.Join(cnames, ", ")+")", "("+strings.Join(ctypes, " × ")+")"
+			if len(cnames) == 1 {
+				ctup, ctyp = cnames[0], ctypes[0]
+			}
+			f.mutates = true
+		}
+	}
+	if f.usesNow {
+		hasNow := false
+		for _, n := range fnames {
+			if n == "now" {
+				hasNow = true
+			}
+		}
+		if !hasNow {
+			fargs = append(fargs, "(now : Int)")
+			fnames = append(fnames, "now")
+		}
+	}
+	f.loopN++
+	name := fmt.Sprintf("%s_range%d", f.leanName, f.loopN)
+	var rt []string
+	for _, sv := range f.stateVar {
+		rt = append(rt, sv.lean)
+	}
+	rt = append(rt, f.results...)
+	ret := strings.Join(rt, " × ")
+	if len(rt) == 0 {
+		ret = "Unit"
+	}
+	call := strings.TrimSpace(name + " " + strings.Join(fnames, " "))
+	var aux, out string
+	if len(cnames) == 0 {
+		next := func(ind string) string { return ind + call + " rest_ (" + keyName + " + 1)\n" }
+		f.retWrap, f.contK = "some", next
+		body := f.block(s.Body.List, "    ", next)
+		f.retWrap, f.contK = "", nil
+		aux = fmt.Sprintf("/-- the `range` loop of `%s` (line %d): `some r` = the body returned r, `none` = every element passed -/\ndef %s %s: List %s → Int → Option (%s)\n  | [], _ => none\n  | %s :: rest_, %s =>\n%s",
+			f.spec.Name, fset.Position(s.Pos()).Line, name, strings.Join(append(fargs, ""), " "), et, ret, valName, keyName, body)
+		out = ind + "match " + call + " " + f.expr(s.X) + " 0 with\n"
+		out += ind + "| some r_ => r_\n"
+		out += ind + "| none =>\n" + k(ind+"  ")
+	} else {
+		// the body also assigns locals of the function (or updates tracked objects): they travel through the recursion
+		next := func(ind string) string { return ind + call + " rest_ (" + keyName + " + 1) " + ctup + "\n" }
+		f.retWrap, f.contK = ".inl", next
+		body := f.block(s.Body.List, "    ", next)
+		f.retWrap, f.contK = "", nil
+		aux = fmt.Sprintf("/-- the `range` loop of `%s` (line %d): `.inl r` = the body returned r, `.inr v` = every element passed and the variables it assigns ended as v -/\ndef %s %s: List %s → Int → %s → Sum (%s) %s\n  | [], _, %s => .inr %s\n  | %s :: rest_, %s, %s =>\n%s",
+			f.spec.Name, fset.Position(s.Pos()).Line, name, strings.Join(append(fargs, ""), " "), et, ctyp, ret, ctyp, ctup, ctup, valName, keyName, ctup, body)
+		out = ind + "match " + call + " " + f.expr(s.X) + " 0 " + ctup + " with\n"
+		out += ind + "| .inl r_ => r_\n"
+		out += ind + "| .inr " + ctup + " =>\n" + k(ind+"  ")
+	}
+	f.aux = append(f.aux, aux)
+	return out
+}
+
+// onlyAssigns: a block of plain `local = expr` statements
+func onlyAssigns(b *ast.BlockStmt) bool {
+	if len(b.List) == 0 {
+		return false
+	}
+	for _, st := range b.List {
+		as, ok := st.(*ast.AssignStmt)
+		if !ok || as.Tok != token.ASSIGN || len(as.Lhs) != 1 || len(as.Rhs) != 1 {
+			return false
+		}
+		if _, ok := as.Lhs[0].(*ast.Ident); !ok {
+			return false
+		}
+	}
+	return true
+}
+
 func hasFor(b *ast.BlockStmt) bool {
 	found := false
 	ast.Inspect(b, func(n ast.Node) bool {
@@ -1162,6 +2229,19 @@ func (f *fn) translate() string {
 		if p, ok := o.Type().(*types.Pointer); ok {
 			if n := namedOf(p); n != nil {
 				if _, ok := n.Underlying().(*types.Struct); ok {
+					if ptrStruct(o.Type()) == nil {
+						// an object of another package the body never mentions plays no part
+						used := false
+						ast.Inspect(d.Body, func(x ast.Node) bool {
+							if u, ok := x.(*ast.Ident); ok && info.Uses[u] == o {
+								used = true
+							}
+							return !used
+						})
+						if !used {
+							return
+						}
+					}
 					f.stateVar = append(f.stateVar, stateVar{id.Name, o, needStruct(n), n})
 					return
 				}
@@ -1188,6 +2268,33 @@ func (f *fn) translate() string {
 			}
 		}
 	}
+	// obj, exists := m[k] with m a map of pointers to records: obj is handed in by the caller
+	ast.Inspect(d.Body, func(n ast.Node) bool {
+		as, ok := n.(*ast.AssignStmt)
+		if !ok || len(as.Lhs) != 2 || len(as.Rhs) != 1 || as.Tok != token.DEFINE {
+			return true
+		}
+		ix, ok := as.Rhs[0].(*ast.IndexExpr)
+		if !ok {
+			return true
+		}
+		mt, ok := info.Types[ix.X].Type.Underlying().(*types.Map)
+		if !ok {
+			return true
+		}
+		pn := ptrStruct(mt.Elem())
+		if pn == nil {
+			return true
+		}
+		oid, eid := as.Lhs[0].(*ast.Ident), as.Lhs[1].(*ast.Ident)
+		if o := info.Defs[oid]; o != nil {
+			f.stateVar = append(f.stateVar, stateVar{oid.Name, o, needStruct(pn), pn})
+		}
+		if o := info.Defs[eid]; o != nil {
+			f.params = append(f.params, param{eid.Name, o, "Bool"})
+		}
+		return true
+	})
 	// objects handed in by the caller (results of extern methods)
 	var unusedParams = map[string]bool{}
 	ast.Inspect(d.Body, func(n ast.Node) bool {
@@ -1222,11 +2329,17 @@ func (f *fn) translate() string {
 				n = 1
 			}
 			for i := 0; i < n; i++ {
+				if pn := ptrStruct(info.Types[fld.Type].Type); pn != nil {
+					f.results = append(f.results, "(Option "+needStruct(pn)+")")
+					f.resultOpt = append(f.resultOpt, true)
+					continue
+				}
 				lt, ok := leanType(info.Types[fld.Type].Type, f.spec.Exact)
 				if !ok {
 					f.fail(fld, "result type")
 				}
 				f.results = append(f.results, lt)
+				f.resultOpt = append(f.resultOpt, false)
 			}
 		}
 	}
@@ -1330,11 +2443,13 @@ func main() {
 		}
 		translated[obj] = f
 		defs = append(defs, text)
-		okFuncs = append(okFuncs, fmt.Sprintf("%q", sp.Name))
+		okFuncs = append(okFuncs, fmt.Sprintf("%q", f.leanName))
 	}
 	var b strings.Builder
 	b.WriteString("-- GENERATED by /verif/go/trans from the current /repo source. Do not edit.\n")
 	b.WriteString("namespace Helios.Generated.Code\n\n")
+	b.WriteString("/-- `strings.HasPrefix` -/\ndef strHasPrefix (s p : String) : Bool := p.toList.isPrefixOf s.toList\n\n")
+	b.WriteString("/-- `xs[i]` on a slice read as a list (Go panics when `i` is out of range: the theorems establish `i < xs.length` where it matters) -/\ndef listGet {α : Type} [Inhabited α] (xs : List α) (i : Nat) : α := (xs[i]?).getD default\n\n")
 	b.WriteString("/-- `m[k] = v` on a Go map read as a total function -/\ndef mapSet {α : Type} (m : String → α) (k : String) (v : α) : String → α :=\n  fun k' => if k' = k then v else m k'\n\n")
 	// resolve nested records first (the list grows while it is walked), then emit them before
 	// the structures that contain them
@@ -1357,11 +2472,22 @@ func main() {
 		for i := 0; i < st.NumFields(); i++ {
 			fl := st.Field(i)
 			if lt, ok := fieldType(fl, false); ok {
-				if _, isStruct := structsNeeded[lt]; isStruct {
-					emit(lt)
+				for _, word := range strings.FieldsFunc(lt, func(r rune) bool { return r == '(' || r == ')' || r == ' ' || r == '×' || r == '→' }) {
+					if _, isStruct := structsNeeded[word]; isStruct && word != name {
+						emit(word)
+					}
 				}
 				lines = append(lines, fmt.Sprintf("  %s : %s\n", ident(fl.Name()), lt))
 			}
+		}
+		if structsWithClosed[name] {
+			lines = append(lines, "  closedConns : List Nat   -- connections closed (Close() called), in order\n")
+		}
+		if structsWithOut[name] {
+			lines = append(lines, "  out : List (String × Int)   -- calls handed on to the wrapped ResponseWriter, in order\n")
+		}
+		if structsWithFlusher[name] {
+			lines = append(lines, "  rwFlusher : Bool   -- the wrapped ResponseWriter implements http.Flusher\n")
 		}
 		if structsWithFx[name] {
 			lines = append(lines, "  fx : List (String × Bool)   -- reports made to the metrics collector, in order\n")
@@ -1370,6 +2496,7 @@ func main() {
 		if strings.Contains(strings.Join(lines, ""), "→") {
 			deriving = ""
 		}
+		inhabited := "\ninstance : Inhabited " + name + " := ⟨by constructor <;> exact default⟩\n"
 		for _, l := range lines {
 			f := strings.Fields(l)
 			if _, nested := structsNeeded[f[len(f)-1]]; nested && noRepr[f[len(f)-1]] {
@@ -1379,8 +2506,8 @@ func main() {
 		if deriving == "" {
 			noRepr[name] = true
 		}
-		fmt.Fprintf(&b, "/-- `%s.%s` (fields with a Lean representation) -/\nstructure %s where\n%s%s\n",
-			strings.TrimPrefix(n.Obj().Pkg().Path(), modPath), n.Obj().Name(), name, strings.Join(lines, ""), deriving)
+		fmt.Fprintf(&b, "/-- `%s.%s` (fields with a Lean representation) -/\nstructure %s where\n%s%s%s\n",
+			strings.TrimPrefix(n.Obj().Pkg().Path(), modPath), n.Obj().Name(), name, strings.Join(lines, ""), deriving, inhabited)
 	}
 	for _, name := range structOrder {
 		emit(name)
